@@ -28,7 +28,22 @@ type genOut struct {
 	Text    string `json:"text,omitempty"`
 }
 
+type fieldObs struct {
+	Name, Tag, JSON      string
+	GoExported, Exported bool
+	EmbeddedStruct       bool
+}
+
+type structObs struct {
+	ID, Local, Pkg string
+	Fields         []fieldObs
+	StdKeys        []string // keys written by the real encoding/json for a value with every field non-empty (nil: could not be built)
+	StdKeysKept    []string // same, the fields tagged gomacro:"ignore" removed from the struct first
+	StdOK          bool
+}
+
 type obsResult struct {
+	Structs  []structObs       `json:"structs,omitempty"`
 	LoadErr  string            `json:"load_err,omitempty"`
 	Outcome  string            `json:"outcome"` // analysis outcome: ok | diag | crash | fatal
 	Msg      string            `json:"msg,omitempty"`
@@ -71,6 +86,7 @@ type walker struct {
 	visited map[string]bool
 	recs    []string
 	kinds   map[string]int
+	structs []structObs
 }
 
 func safeType(n analysis.Type) (t types.Type) {
@@ -180,6 +196,16 @@ func (w *walker) visitAt(node analysis.Type, at types.Type, atCoq string) {
 		for _, u := range n.Implements {
 			implements = append(implements, coqStr(tyID(u.Type())))
 		}
+		so := structObs{ID: tyID(n.Name), Local: n.Name.Obj().Name()}
+		if n.Name.Obj().Pkg() != nil {
+			so.Pkg = n.Name.Obj().Pkg().Path()
+		}
+		for _, f := range n.Fields {
+			so.Fields = append(so.Fields, fieldObs{Name: f.Field.Name(), Tag: string(f.Tag), JSON: f.JSONName(), GoExported: f.Field.Exported(), Exported: f.Exported()})
+		}
+		so.StdKeys, so.StdOK = stdJSONKeys(n.Name, false)
+		so.StdKeysKept, _ = stdJSONKeys(n.Name, true)
+		w.structs = append(w.structs, so)
 	}
 	var ch []string
 	for _, c := range children {
@@ -278,6 +304,7 @@ func observe(target string, what string) *obsResult {
 			w.visit(an.Types[e.t], e.t)
 		}
 		nodes = w.recs
+		res.Structs = w.structs
 		res.NumNodes = len(nodes)
 		res.Kinds = w.kinds
 	}
